@@ -480,7 +480,7 @@ func luaEngine(in *bufio.Scanner, out *bufio.Writer) {
 		status, log, errmsg := runLua(src, gcwait, doClose, reuse, mockgc, rootcpu)
 		ls := "-"
 		if len(log) > 0 {
-			ls = strings.Join(log, ";")
+			ls = strings.ReplaceAll(strings.Join(log, ";"), " ", "_") // one token per field
 		}
 		e := "-"
 		if errmsg != "" {
